@@ -107,7 +107,8 @@ let () =
       (match c with
        | L [_; _; L items] ->
          (match List.rev items with
-          | L [A "raw"; _; _; _; A d] :: _ -> bump ("delivery_" ^ d)
+          | L (A "raw" :: _ :: _ :: _ :: A d :: rest) :: _ ->
+            bump ("delivery_" ^ d); (match rest with [A "1"] -> bump "repeated_header_lines" | _ -> ())
           | _ -> bump "delivery_exact")
        | _ -> ());
       bump ("method_" ^ (let m = string_of_chars r.r_method in if String.length m > 12 || String.length m = 0 then "other" else String.map (fun ch -> if ch >= 'A' && ch <= 'Z' then ch else '_') m));
